@@ -86,7 +86,9 @@ def lm_cases(ctx, rng, n):
             truth = [rng.uniform(0.5, 2), rng.uniform(-0.5, 0.5), rng.uniform(0.8, 1.5)]
         else:
             truth = [rng.uniform(1, 3), rng.uniform(1, 3), rng.uniform(-0.5, 0.5)]
-        noisy = kind in ("poly", "trig") and rng.random() < 0.5
+        # noisy data for the non-linear models, too (a third of them): the minimiser is then unknown, and the result is judged
+        # by termination, finiteness and by the absence of a better point one Gauss-Newton step away
+        noisy = rng.random() < (0.5 if kind in ("poly", "trig") else 0.33)
         ys = [model(kind, x, truth) + (rng.gauss(0, 0.05) if noisy else 0.0) for x in xs]
         init = [t * (1 + rng.uniform(-0.2, 0.2)) + (0.1 * rng.uniform(-1, 1) if abs(t) < 0.05 else 0) for t in truth]
         tol = 10.0 ** (-rng.uniform(6, 12))
@@ -96,7 +98,7 @@ def lm_cases(ctx, rng, n):
         variant = rng.choice(["jac", "fd"])
         c = {"variant": variant, "model": kind, "v": v, "xs": [fp(x) for x in xs], "ys": [fp(y) for y in ys], "init": [fp(x) for x in init],
              "truth": [fp(t) for t in truth], "tol": fp(tol), "damping": fp(damping), "mult": fp(mult), "h": fp(h), "budget": 400000,
-             "recover": not noisy, "mustok": True}
+             "recover": not noisy, "mustok": kind in ("poly", "trig") or not noisy}
         r = rng.random()
         if r < 0.03:
             c["tol"] = fp(-tol)
